@@ -89,6 +89,7 @@ type Node struct {
 	kids []*Node
 	flat []Value
 	typ  types.Type
+	etyp types.Type // element type for array nodes
 	id   int
 	born int // path-epoch in which the node was created (0 = root init)
 }
@@ -241,6 +242,7 @@ func (e *Engine) newNode(t types.Type) *Node {
 }
 
 func (e *Engine) initArrayNode(n *Node, elem types.Type, ln int) {
+	n.etyp = elem
 	if isLeafType(elem) {
 		n.kind = nkArrFlat
 		n.flat = make([]Value, ln)
